@@ -16,6 +16,7 @@ NOT_DECIDED = "redirect chains against live servers; loop limits"
 
 
 def check(ctx):
+    reinit_applies_given_values(ctx)
     ctx.rule("D7-relative", "hostname/port/scheme from urlsplit(location) are defaulted from self.requester when the Location is relative")
     ctx.rule("T1-downgrade", "connector swap dominated by the https->http downgrade guard")
     ctx.rule("T3-chain", "redirects chain bookkeeping in serviceResponse")
@@ -135,3 +136,52 @@ def path_decoded_once(ctx):
     rb = ctx.cls("aio.http.clienting", "Requester").own_method("build")
     ctx.check(any(isinstance(x, ast.Call) and (call_name(x) or "").split(".")[-1] == "quote" and x.args and src(x.args[0]) in ("self.path", "path")
                   for x in ast.walk(rb)), "T7-quote", rb, "Requester.build quotes the path", "the request target must be percent-encoded exactly once")
+
+
+def reinit_applies_given_values(ctx):
+    """Requester.reinit replaces a field whenever a value is given - an empty one included (`qargs={}` is how a redirect to a
+    Location without a query clears the previous hop's query); only None means `keep`"""
+    from ..rules import path_condition, formula_equiv, formula_of
+    ctx.rule("T6-reinit", "Requester.reinit: self.<p> = .. <p> .. for a parameter p is executed exactly when `p is not None`")
+    f = ctx.cls("http.clienting", "Requester").own_method("reinit")
+    V = FuncView(ctx, f)
+    params = [a.arg for a in f.args.args[1:]]
+    k = 0
+    for p_ in params:
+        st = [n for n in V.stores("self." + p_) if isinstance(n.ast, ast.Assign) and
+              any(isinstance(x, ast.Name) and x.id == p_ for x in ast.walk(n.ast.value))]
+        if not st:
+            continue
+        k += 1
+        def project(fm):
+            # keep the tests that talk about this parameter (the guards of the other fields hold on some path or other)
+            if fm[0] in ("and", "or"):
+                parts = [project(g) for g in fm[1]]
+                parts = [g for g in parts if g is not None]
+                if fm[0] == "and":
+                    return ("and", parts)
+                return ("or", parts) if parts else None
+            if fm[0] == "not":
+                g = project(fm[1])
+                return None if g is None else ("not", g)
+            if fm[0] == "atom":
+                import re as _re
+                return fm if _re.search(r"\b%s\b" % _re.escape(p_), fm[1]) else None
+            return fm
+        alts = []
+        for n in st:
+            c = project(path_condition(V, n)) or ("and", [])
+            v = n.ast.value
+            if isinstance(v, ast.IfExp):
+                # `self.p = p if p is not None else <default>`: the parameter is what is stored on one arm only
+                tf = formula_of(src(v.test))
+                in_body = any(isinstance(x, ast.Name) and x.id == p_ for x in ast.walk(v.body))
+                in_else = any(isinstance(x, ast.Name) and x.id == p_ for x in ast.walk(v.orelse))
+                if in_body != in_else:
+                    c = ("and", [c, tf if in_body else ("not", tf)])
+            alts.append(c)
+        pc = ("or", alts)
+        ctx.check(formula_equiv(pc, "%s is not None" % p_), "T6-reinit", st[0].ast, "reinit: %s applied iff `%s is not None`" % (p_, p_),
+                  "a truthiness test treats an empty value as `not given`: reinit(qargs={}) for a redirect target without a query keeps "
+                  "the previous request's query arguments, and the redirected request goes to the wrong resource")
+    ctx.floor("T6-reinit:params", k, 8)
